@@ -58,8 +58,9 @@ RULE = (
 ASSUMPTIONS = [
     "the trained set per routine is the table DESIGN Appendix B.1 (restated from the docstrings), not read from the code",
     "'non-zero gradient' is decided by nnx.grad of the routine's own documented loss taken on the same inputs before the call; "
-    "the obligation 'trained component changes' is asserted only when some element has |g| >= 1e-3 and |theta| <= 1e2 "
-    "(then SGD(0.1)/Adam(0.1) steps are representable in float32); smaller gradients are counted, not judged",
+    "the obligation 'trained component changes' is asserted only when some element has 1e-3 <= |g| <= 1e6 and |theta| <= 1e2 "
+    "(then the element-wise SGD(0.1)/Adam(0.1) step is representable in float32 and Adam's squared gradient cannot overflow); "
+    "other non-zero gradients are counted, not judged",
     "optimizers are harness-owned nnx.Optimizer(module, sgd(0.1)|adam(0.1), wrt=nnx.Param) on the repo-constructed modules "
     "(create_*_state with 1 hidden layer of 3 units; thorough adds [2,2]); EntropyControl keeps its own class, only its optax "
     "transformation is replaced",
@@ -77,6 +78,7 @@ K_STATIC = "static-attribute-changed:{}"
 K_SHARED = "variable-shared:{}+{}"
 
 G_MIN = 1e-3
+G_MAX = 1e6  # Adam squares the gradient in float32: |g| > 1.8e19 overflows its second moment and the step becomes 0
 P_MAX = 1e2
 GAMMA = 0.9
 
@@ -179,7 +181,7 @@ def flat_params(obj):
 
 
 def grad_class(g, p):
-    """'repr' (some element |g|>=G_MIN with |theta|<=P_MAX), 'zero' (all exactly 0) or 'tiny'."""
+    """'repr' (some element G_MIN<=|g|<=G_MAX with |theta|<=P_MAX), 'zero' (all exactly 0) or 'tiny' (anything else)."""
     gmax = 0.0
     rep = False
     for k, gv in g.items():
@@ -188,7 +190,7 @@ def grad_class(g, p):
         gmax = max(gmax, float(np.max(np.abs(gv))))
         pv = p.get(k)
         if pv is not None and pv.shape == gv.shape:
-            rep = rep or bool(np.any((np.abs(gv) >= G_MIN) & (np.abs(pv) <= P_MAX)))
+            rep = rep or bool(np.any((np.abs(gv) >= G_MIN) & (np.abs(gv) <= G_MAX) & (np.abs(pv) <= P_MAX)))
     if rep:
         return "repr", gmax
     return ("zero" if gmax == 0.0 else "tiny"), gmax
@@ -1076,7 +1078,8 @@ def cases_for(fam, N, tier, seed):
         for H in hs:
             if N * H > 6:
                 continue
-            for pat, r in itertools.product(patterns(N * H), range(nr)):
+            # the 64 patterns of N=3, H=2 are crossed with one reward vector only
+            for pat, r in itertools.product(patterns(N * H), range(nr if N * H <= 4 else 1)):
                 out.append(dict(N=N, H=H, pat=list(pat), r=r, seed=seed))
     elif fam == "pg":
         for space, pat, r in itertools.product(["discrete", "continuous"], patterns(2), range(nr)):
